@@ -111,17 +111,25 @@ Definition c11_check (c : c11case) : bool :=
   | CFixed z b e => res_eqb beqb (int_to_fixed_base64 z b) e
   end.
 
+(* what the model computed, in short (error class, number of members): the full
+   values are in the case itself.  Kept small on purpose: the evaluation
+   driver reads coqc's output only after the process has ended. *)
 Inductive c11out :=
-| OImp (r : res (dict * dict))
+| OImp (r : res (nat * nat))
 | OVal (r : res unit)
-| OGen (a b : res dict)
-| OFix (r : res (list N)).
+| OGen (a b : res nat)
+| OFix (r : res nat).
+
+Definition names (r : res dict) : res nat :=
+  match r with Ok d => Ok (length d) | Err e => Err e end.
 
 Definition c11_show (c : c11case) : c11out :=
   match c with
   | CImport reg kt d ps a _ =>
-      OImp (match import_view a reg kt d ps with Ok (x, y, _, _) => Ok (x, y) | Err e => Err e end)
+      OImp (match import_view a reg kt d ps with
+            | Ok (x, y, _, _) => Ok (length x, length y) | Err e => Err e end)
   | CValidate kt d _ => OVal (validate_dict_key kt d)
-  | CGen n ps _ _ => let '(r1, r2) := gen_view n ps in OGen r1 r2
-  | CFixed z b _ => OFix (int_to_fixed_base64 z b)
+  | CGen n ps _ _ => let '(r1, r2) := gen_view n ps in OGen (names r1) (names r2)
+  | CFixed z b _ =>
+      OFix (match int_to_fixed_base64 z b with Ok s => Ok (length s) | Err e => Err e end)
   end.
